@@ -133,3 +133,67 @@ async fn sch_hook_wait_act_next() {
     let (ended, open, root) = run(workflow, &["hook1"]).await;
     assert_eq!(ended, vec!["completed".to_string()], "open={open:?} root={root}");
 }
+
+/// a completed-hook irq beneath a finished step is answered while the next step is open: nothing is announced twice,
+/// the workflow ends once, after the open act
+#[tokio::test]
+async fn sch_hook_wait_completed_hook_reports_to_finished_step() {
+    let workflow = Workflow::new()
+        .with_id("w1")
+        .with_step(|step| {
+            step.with_id("step1").with_setup(|s| {
+                s.add(
+                    Act::irq(|act| act.with_key("hook1"))
+                        .with_id("hook1")
+                        .with_on(crate::ActEvent::Completed),
+                )
+            })
+        })
+        .with_step(|step| {
+            step.with_id("step2")
+                .with_act(Act::irq(|act| act.with_key("act2")).with_id("act2"))
+        });
+    let (engine, proc, tx, _) = create_proc_signal2::<()>(&workflow, &utils::longid());
+    let ended = Arc::new(Mutex::new(Vec::<String>::new()));
+    let log = Arc::new(Mutex::new(Vec::<String>::new()));
+    let pending = Arc::new(Mutex::new(Vec::<(String, String, String)>::new()));
+    let emitter = engine.channel();
+    let e2 = ended.clone();
+    emitter.on_complete(move |e| e2.lock().unwrap().push(format!("{}", e.state)));
+    let p2 = pending.clone();
+    let l2 = log.clone();
+    emitter.on_message(move |e| {
+        if e.r#type == "step" || e.r#type == "workflow" {
+            l2.lock().unwrap().push(format!("{}:{}", e.nid, e.state));
+        }
+        if e.is_irq() && e.is_state(MessageState::Created) {
+            p2.lock().unwrap().push((e.key.clone(), e.pid.clone(), e.tid.clone()));
+        }
+    });
+    engine.runtime().launch(&proc);
+    for key in ["hook1", "act2"] {
+        let mut found = None;
+        for _ in 0..50 {
+            found = pending.lock().unwrap().iter().find(|(k, _, _)| k == key).cloned();
+            if found.is_some() {
+                break;
+            }
+            tokio::time::sleep(Duration::from_millis(20)).await;
+        }
+        let (_, pid, tid) = found.unwrap_or_else(|| panic!("interrupt {key} never shown"));
+        if key == "act2" {
+            // the hook was answered: the workflow is still running
+            assert!(ended.lock().unwrap().is_empty());
+        }
+        engine.executor().act().complete(&pid, &tid, &Vars::new()).unwrap();
+        tokio::time::sleep(Duration::from_millis(100)).await;
+    }
+    let _ = tokio::time::timeout(Duration::from_secs(2), tx.recv()).await;
+    tokio::time::sleep(Duration::from_millis(200)).await;
+    let log = log.lock().unwrap().clone();
+    println!("log={log:?}");
+    assert_eq!(*ended.lock().unwrap(), vec!["completed".to_string()]);
+    assert_eq!(log.iter().filter(|l| *l == "step1:completed").count(), 1, "{log:?}");
+    assert_eq!(log.iter().filter(|l| *l == "step2:completed").count(), 1, "{log:?}");
+    assert_eq!(log.iter().filter(|l| l.starts_with("w1:completed")).count(), 1, "{log:?}");
+}
